@@ -6,7 +6,7 @@ from typing import Dict, List, Optional, Set, Tuple
 
 from ..model import AnalysisError, Func, const_str, dotted, kwarg, src, walk_no_defs
 from ..paths import PathEval
-from ..util import call_tail, enclosing, find_calls, no_exc, node_calls
+from ..util import MUTATING_TAILS as MUTATING_METHODS, call_tail, enclosing, find_calls, no_exc, node_calls
 
 EXPLANATION = (
     "C05 decided statically (the standard sufficient structural condition, each part of which is necessary): (KEY) for each "
@@ -265,6 +265,108 @@ def rule_quality_digest(ctx) -> None:
                           f"{sorted(digest)}: after t2.quality.{k} changes between turns a hit returns the ranking computed under the old setting")
 
 
+def lossy_key_parts(ctx, fn: Func, key_expr: ast.AST, at, outer: Optional[Func] = None) -> List[Tuple[Func, ast.AST, str]]:
+    """parts of a cache key that fold a variable-length collection of strings into one string with `sep.join(...)` and are made
+    for the key only (the joined text is read nowhere else): the elements may contain the separator, so different inputs -
+    {"cat", "dog"} and {"cat|dog"} - give one key and the second caller is served the first caller's result.  A join whose
+    result is also what the computation consumes (the query text) is the input itself and is not a key encoding.  Elements
+    passed through an escaping / fixed-width call are accepted.  Returns (function, join call, bound name or '')."""
+    out: List[Tuple[Func, ast.AST, str]] = []
+
+    def scan(f: Func, exprs_at, key_stmt_nodes):
+        cfg = ctx.cfg(f)
+        for e, nd, bound in exprs_at:
+            for x in walk_no_defs(e):
+                if not (isinstance(x, ast.Call) and isinstance(x.func, ast.Attribute) and x.func.attr == "join" and isinstance(x.func.value, ast.Constant) and isinstance(x.func.value.value, str) and len(x.args) == 1):
+                    continue
+                arg = x.args[0]
+                if isinstance(arg, (ast.List, ast.Tuple)) and len(arg.elts) <= 1:
+                    continue
+                elt = arg.elt if isinstance(arg, (ast.GeneratorExp, ast.ListComp)) else None
+                if elt is not None and isinstance(elt, ast.Call) and call_tail(elt) not in ("str", "repr", "format") :
+                    continue  # each element goes through an encoder of its own (escape, digest)
+                if bound:
+                    # is the joined value consumed by anything but the key?
+                    used_elsewhere = False
+                    for m in cfg.nodes:
+                        if m in key_stmt_nodes or m is nd:
+                            continue
+                        for ee in node_exprs(m):
+                            if any(isinstance(y, ast.Name) and y.id == bound and isinstance(y.ctx, ast.Load) for y in ast.walk(ee)):
+                                used_elsewhere = True
+                    for inner_f in ctx.prog.funcs.values():
+                        if inner_f.qual.startswith(f.qual + ".") and any(isinstance(y, ast.Name) and y.id == bound and isinstance(y.ctx, ast.Load) for y in ast.walk(inner_f.node)):
+                            # a closure reads it: count as elsewhere unless that closure is the key's own function
+                            if inner_f.qual != fn.qual:
+                                used_elsewhere = True
+                    if used_elsewhere:
+                        continue
+                out.append((f, x, bound))
+
+    from ..dataflow import node_exprs
+    rd = ctx.rd(fn)
+    sl = rd.slice([key_expr], at)
+    key_nodes = {d.node for d in sl.defs} | {at}
+    items = [(key_expr, at, "")] + [(d.value, d.node, d.name) for d in sl.defs if d.value is not None]
+    scan(fn, items, key_nodes)
+    if outer is not None:
+        ord_ = ctx.rd(outer)
+        work = list(sl.free)
+        seen: Set[str] = set()
+        oitems = []
+        okey_nodes = set()
+        while work:
+            nm = work.pop()
+            if nm in seen:
+                continue
+            seen.add(nm)
+            for d in ord_.all_defs:
+                if d.name == nm and d.value is not None and d.kind in ("assign", "walrus", "aug", "unpack"):
+                    oitems.append((d.value, d.node, d.name))
+                    okey_nodes.add(d.node)
+                    s2 = ord_.slice([d.value], d.node)
+                    for d2 in s2.defs:
+                        if d2.value is not None:
+                            oitems.append((d2.value, d2.node, d2.name))
+                            okey_nodes.add(d2.node)
+        # a name of the enclosing function that the key's function reads outside the key is consumed elsewhere
+        icfg = ctx.cfg(fn)
+        keep = []
+        for e, nd, bound in oitems:
+            reads_outside_key = any(isinstance(y, ast.Name) and y.id == bound and isinstance(y.ctx, ast.Load)
+                                    for m in icfg.nodes if m not in key_nodes for ee in node_exprs(m) for y in ast.walk(ee))
+            if not reads_outside_key:
+                keep.append((e, nd, bound))
+        scan(outer, keep, okey_nodes)
+    return out
+
+
+def rule_key_injective(ctx) -> None:
+    sites = []
+    inner = ctx.func(T1 + ":t1_propagate._t1_one_graph")
+    outer = ctx.func(T1 + ":t1_propagate")
+
+    def first(fn, pred, argi):
+        cfg = ctx.cfg(fn)
+        for n in cfg.nodes:
+            for c in node_calls(n):
+                if pred(c):
+                    return (fn, n, c.args[argi])
+        raise AnalysisError(f"anchor-vanished: cache lookup in {fn.qual}")
+
+    sites.append(("T1",) + first(inner, lambda c: call_tail(c) == "get" and src(c.func.value) == "cache" and len(c.args) == 1, 0) + (outer,))
+    sites.append(("T2",) + first(ctx.func(T2), lambda c: call_tail(c) == "get" and src(c.func.value) == "cache" and len(c.args) >= 1, 0) + (None,))
+    sites.append(("TURN",) + first(ctx.func(RUN_TURN), lambda c: call_tail(c) == "get" and src(c.func.value) == "cm" and len(c.args) == 2, 1) + (None,))
+    for tag, fn, n, e, out_fn in sites:
+        bad = lossy_key_parts(ctx, fn, e, n, out_fn)
+        if bad:
+            f, x, bound = bad[0]
+            ctx.violation("C05.KEY", f"{tag}/key-parts-unambiguous", f.loc(x), f"the key part `{src(x)[:60]}`{' (' + bound + ')' if bound else ''} folds a collection of strings into one string made only for the key: an element "
+                          "containing the separator makes two different inputs share the key, and the second is served the result cached for the first")
+        else:
+            ctx.holds("C05.KEY", f"{tag}/key-parts-unambiguous", fn.loc(e), "no key-only part folds a variable-length collection of strings through a separator (collections enter as tuples / canonical JSON)")
+
+
 def rule_key_t1(ctx) -> None:
     inner = ctx.func(T1 + ":t1_propagate._t1_one_graph")
     outer = ctx.func(T1 + ":t1_propagate")
@@ -377,6 +479,66 @@ def rule_key_t1_roots(ctx) -> None:
                   f"the cached propagation reads {root}['{k}'] but the T1 cache key does not: changing t1.{k} returns the result computed under the old value")
 
 
+def index_version_gaps(ctx):
+    """InMemoryIndex: the attribute `index_version()` returns is the version; the containers __init__ creates are the content.
+    Yields ("method", fn, None, None) per method that writes content, ("reset", fn, stmt, None) for a plain assignment of the
+    version outside __init__, and ("write", fn, stmt, path-or-None) per content write with the normal path to the return that
+    skips the increment (None = every path increments).  Shared with C01.CLOCK (wall-clock TTL expiry is result-neutral only
+    while the key tracks content)."""
+    meths = ctx.prog.methods(INDEX)
+    iv = meths.get("index_version")
+    if iv is None:
+        raise AnalysisError("InMemoryIndex.index_version not found")
+    rets = [x.value for x in walk_no_defs(iv.node) if isinstance(x, ast.Return) and x.value is not None]
+    ver = next((src(r) for r in rets if isinstance(r, ast.Attribute) and src(r.value) == "self"), None)
+    if ver is None:
+        raise AnalysisError("index_version() does not return an attribute of self")
+    init = meths.get("__init__")
+    content = set()
+    for x in walk_no_defs(init.node):
+        if isinstance(x, (ast.Assign, ast.AnnAssign)):
+            v = x.value
+            for t in (x.targets if isinstance(x, ast.Assign) else [x.target]):
+                if isinstance(t, ast.Attribute) and src(t.value) == "self" and src(t) != ver and isinstance(v, (ast.List, ast.Dict, ast.Set, ast.ListComp, ast.DictComp)) or (
+                        isinstance(t, ast.Attribute) and src(t.value) == "self" and isinstance(v, ast.Call) and call_tail(v) in ("list", "dict", "set", "OrderedDict", "defaultdict", "deque")):
+                    content.add(src(t))
+    if not content:
+        raise AnalysisError("InMemoryIndex.__init__ creates no container")
+    for mname, fn in meths.items():
+        if mname == "__init__":
+            continue
+        cfg = ctx.cfg(fn)
+        for x in walk_no_defs(fn.node):
+            if isinstance(x, (ast.Assign, ast.AnnAssign)) and any(src(t) == ver for t in (x.targets if isinstance(x, ast.Assign) else [x.target])):
+                yield ("reset", fn, x, None)
+        writes = []
+        for n in cfg.nodes:
+            if n.kind != "stmt":
+                continue
+            a = n.ast
+            if isinstance(a, (ast.Assign, ast.AugAssign)):
+                for t in (a.targets if isinstance(a, ast.Assign) else [a.target]):
+                    root = t
+                    while isinstance(root, ast.Subscript):
+                        root = root.value
+                    if src(root) in content:
+                        writes.append(n)
+            for c in node_calls(n):
+                if isinstance(c.func, ast.Attribute) and c.func.attr in MUTATING_METHODS and src(c.func.value) in content:
+                    writes.append(n)
+            if isinstance(a, ast.Delete) and any(any(cn in src(t) for cn in content) for t in a.targets):
+                writes.append(n)
+        if not writes:
+            continue
+        yield ("method", fn, None, None)
+        incs = [n for n in cfg.nodes if n.kind == "stmt" and isinstance(n.ast, ast.AugAssign) and src(n.ast.target) == ver and isinstance(n.ast.op, ast.Add)]
+        for w in writes:
+            if w in incs:
+                continue
+            p = cfg.path([w], lambda x: x is cfg.exit, avoid=lambda x: x in incs, edge_ok=no_exc, include_start=False)
+            yield ("write", fn, w.ast, p)
+
+
 def rule_ver(ctx) -> None:
     # (a) every graph write is followed by the etag bump
     for mname, fn in ctx.prog.methods(STORE).items():
@@ -452,40 +614,16 @@ def rule_ver(ctx) -> None:
     # (c) index version: every write to the episode list is followed, on every normal path, by an increment of the version;
     #     nothing resets it
     n_m = 0
-    for mname, fn in ctx.prog.methods(INDEX).items():
-        if mname == "__init__":
-            continue
-        cfg = ctx.cfg(fn)
-        assigns = [x for x in walk_no_defs(fn.node) if isinstance(x, (ast.Assign, ast.AnnAssign)) and any(src(t) == "self._ver" for t in (x.targets if isinstance(x, ast.Assign) else [x.target]))]
-        if assigns:
-            ctx.violation("C05.VER", f"{fn.qual}/version-reset", fn.loc(assigns[0]), f"`{src(assigns[0])[:40]}` assigns the index version: it can repeat an earlier value, so the T2 cache (keyed by the version) revives stale results")
-        writes = []
-        for n in cfg.nodes:
-            if n.kind != "stmt":
-                continue
-            a = n.ast
-            if isinstance(a, (ast.Assign, ast.AugAssign)):
-                for t in (a.targets if isinstance(a, ast.Assign) else [a.target]):
-                    root = t
-                    while isinstance(root, ast.Subscript):
-                        root = root.value
-                    if src(root) == "self._eps":
-                        writes.append(n)
-            for c in node_calls(n):
-                if isinstance(c.func, ast.Attribute) and c.func.attr in ("append", "clear", "extend", "pop", "remove", "insert", "sort", "reverse") and src(c.func.value) == "self._eps":
-                    writes.append(n)
-            if isinstance(a, ast.Delete) and any("self._eps" in src(t) for t in a.targets):
-                writes.append(n)
-        if not writes:
-            continue
-        n_m += 1
-        incs = [n for n in cfg.nodes if n.kind == "stmt" and isinstance(n.ast, ast.AugAssign) and src(n.ast.target) == "self._ver" and isinstance(n.ast.op, ast.Add)]
-        for w in writes:
-            p = cfg.path([w], lambda x: x is cfg.exit, avoid=lambda x: x in incs, edge_ok=no_exc, include_start=False)
-            ctx.check(bool(incs) and p is None, "C05.VER", ctx.okey(f"{fn.qual}/mutation-bumps-version"), fn.loc(w.ast), "every path from this write of the episode list increments the version",
-                      f"`{src(w.ast)[:50]}` changes the episode list but a path to the return skips `self._ver += 1`: the index version no longer tracks content, so the T2 stage cache and the turn-level "
-                      "cache keep serving the result computed before the change (e.g. an episode re-added under its id with another owner)", ctx.path_witness(fn, p))
-    ctx.floor("C05.VER", "InMemoryIndex methods mutating _eps", n_m, 2)
+    for kind, fn, at, p in index_version_gaps(ctx):
+        if kind == "method":
+            n_m += 1
+        elif kind == "reset":
+            ctx.violation("C05.VER", f"{fn.qual}/version-reset", fn.loc(at), f"`{src(at)[:40]}` assigns the index version: it can repeat an earlier value, so the T2 cache (keyed by the version) revives stale results")
+        else:
+            ctx.check(p is None, "C05.VER", ctx.okey(f"{fn.qual}/mutation-bumps-version"), fn.loc(at), "every path from this write of the episode list increments the version",
+                      f"`{src(at)[:50]}` changes the episode list but a path to the return skips the version increment: the index version no longer tracks content, so the T2 stage cache and the turn-level "
+                      "cache keep serving the result computed before the change (e.g. an episode re-added under its id with another owner)", ctx.path_witness(fn, p) if p else None)
+    ctx.floor("C05.VER", "InMemoryIndex methods mutating the episode containers", n_m, 2)
 
 
 def rule_iso(ctx) -> None:
@@ -747,6 +885,7 @@ def run(ctx) -> None:
     rule_quality_digest(ctx)
     rule_key_t1(ctx)
     rule_key_t1_roots(ctx)
+    rule_key_injective(ctx)
     rule_ver(ctx)
     rule_iso(ctx)
     rule_alias(ctx)
